@@ -285,7 +285,7 @@ func (w *World) storeOp(op J) (J, error) {
 	case "SetNode":
 		seen := time.Now()
 		if has(op, "seen") {
-			seen = w.clock.epoch.Add(time.Duration(num(op, "seen")) * time.Second)
+			seen = w.clock.epoch.Add(time.Duration(num(op, "seen")) * tick)
 		}
 		n := store.Node{
 			ID:          store.NodeID(w.names.node(str(op, "id"))),
